@@ -59,9 +59,17 @@ def make_project(seed, nfiles, dup=False):
     type_names = []
     meta = {"commands": [], "types": [], "events": []}
     paths = []
+    # layouts: distinct file names / the same file name in several directories (`users/commands.rs`, `orders/commands.rs`,
+    # several `mod.rs`): the order of files with equal names must not depend on the process either
+    layout = seed % 3
     for i in range(nfiles):
-        d = ["", "commands/", "models/", "commands/nested/"][i % 4] if nfiles > 1 else ""
-        paths.append("%sf%d.rs" % (d, i))
+        if layout == 1 and nfiles > 1:
+            paths.append("%scommands.rs" % ["", "users/", "orders/", "billing/", "admin/", "reports/", "x/y/"][i % 7])
+        elif layout == 2 and nfiles > 1:
+            paths.append(["mod.rs", "users/mod.rs", "orders/mod.rs", "orders/handlers.rs", "users/handlers.rs", "billing/mod.rs", "z/mod.rs"][i % 7])
+        else:
+            d = ["", "commands/", "models/", "commands/nested/"][i % 4] if nfiles > 1 else ""
+            paths.append("%sf%d.rs" % (d, i))
     # types first so that commands can reference types of any file
     decls = {p: [] for p in paths}
     ntypes = 2 + rng.below(2 * nfiles)
@@ -186,6 +194,12 @@ def add_noise(project, seed):
         p2["files"][path] = nb
     # an extra file with no commands and no serde types
     p2["files"]["util/noise.rs"] = ["pub fn unrelated() {}\n", "pub struct Unused {\n    a: u8,\n}\n"]
+    # plain functions carrying the names of commands (backend helpers the thin command wrappers delegate to), in files
+    # that sort before and after every other file
+    names = p2["meta"]["commands"]
+    helpers = ["pub fn %s(conn: &Connection, limit: u32) -> u32 {\n    limit\n}\n" % n for n in names]
+    p2["files"]["aaa_backend/helpers.rs"] = helpers[0::2] or ["pub fn none_a() {}\n"]
+    p2["files"]["zzz_backend/helpers.rs"] = helpers[1::2] or ["pub fn none_z() {}\n"]
     return p2
 
 
